@@ -106,6 +106,12 @@ template <typename D> struct Prog {
   // exact set denoted by the object's own constraint description
   Sys read(const D& d, size_t n) { return to_ref(d.constraints(), n); }
   Sys snapshot(const D& d, size_t n) { D cp(d); return read(cp, n); }
+  // For inexact bound types the descriptions of one object may differ by rounding: closing the matrix adds
+  // (rounded-up) implied constraints, reduction drops constraints it deems redundant.  `small' is the tightest
+  // description (all entries of the closed matrix), `big' the loosest (minimized constraints).  Soundness of a
+  // step is judged as  f(small(arguments))  included in  big(result).
+  Sys small(const D& d, size_t n) { D cp(d); (void) cp.is_empty(); return read(cp, n); }
+  Sys big(const D& d, size_t n) { D cp(d); return to_ref(cp.minimized_constraints(), n); }
 
   // ---- data generation -------------------------------------------------
   mpz_class gen_bound() {
@@ -141,12 +147,17 @@ template <typename D> struct Prog {
     }
     else if (kind == 1) { // from a polyhedron, chosen complexity
       int m = (int) t.range(0, 5); C_Polyhedron ph(n); Sys pm(n); c.log << " from C_Polyhedron {";
-      for (int i = 0; i < m; ++i) { RCon rc = gen_con(t, n, wit, false, t.chance(10)); c.log << (i ? ", " : "") << str(rc); ph.add_constraint(to_ppl(rc)); pm.add(to_refcon(rc)); }
-      int cx = (int) t.range(0, 2); Complexity_Class cc = cx == 0 ? ANY_COMPLEXITY : cx == 1 ? SIMPLEX_COMPLEXITY : POLYNOMIAL_COMPLEXITY;
+      bool unrep = false;
+      for (int i = 0; i < m; ++i) { RCon rc = gen_con(t, n, wit, false, t.chance(10)); if (unrepresentable(rc)) unrep = true; c.log << (i ? ", " : "") << str(rc); ph.add_constraint(to_ppl(rc)); pm.add(to_refcon(rc)); }
+      int cx = (int) t.range(0, 2);
+      // KF-C03-6: Box(C_Polyhedron, non-ANY complexity) throws std::length_error when the source polyhedron is empty
+      if (TR::kind == 0 && cx != 0 && kf("KF-C03-6")) { bool bad = ref::is_empty(pm); if (bad) { c.excluded("KF-C03-6"); cx = 0; } }
+      if (float_box() && cx != 0 && unrep && kf("KF-C03-10")) { c.excluded("KF-C03-10"); cx = 0; }
+      Complexity_Class cc = cx == 0 ? ANY_COMPLEXITY : cx == 1 ? SIMPLEX_COMPLEXITY : POLYNOMIAL_COMPLEXITY;
       c.log << "} complexity " << (cx == 0 ? "ANY" : cx == 1 ? "SIMPLEX" : "POLYNOMIAL") << "\n";
       if (t.chance(40)) (void) ph.minimized_generators();
       o.d = D(ph, cc);
-      Sys got = snapshot(o.d, n);
+      Sys got = EXACT ? snapshot(o.d, n) : big(o.d, n);
       c.check("ctor.polyhedron.sound", ref::included(pm, got), [&] { return std::string(TR::name()) + "(C_Polyhedron) lost points: " + show_sys(got) + " source " + show_sys(pm); });
       if (EXACT && cx == 0) { ref::Union u; u.push_back(pm); Sys e = alpha(u, n, TR::kind, TR::strict);
         c.check("ctor.polyhedron.best", ref::equal(got, e), [&] { return std::string(TR::name()) + "(C_Polyhedron, ANY) is not the smallest: " + show_sys(got) + " expected " + show_sys(e) + " source " + show_sys(pm); }); }
@@ -163,25 +174,49 @@ template <typename D> struct Prog {
         else if (gk == 1) { gs.insert(Generator::ray(e.ppl())); g.rays.push_back(v); c.log << " ray(" << e.str() << ")"; }
         else { for (size_t j = 0; j < n; ++j) v[j] = mkq(e.a[j], dv); gs.insert(Generator::point(e.ppl(), dv)); g.points.push_back(v); c.log << " point((" << e.str() << ")/" << dv << ")"; } }
       c.log << " }\n";
+      if (gs.space_dimension() < n) gs.set_space_dimension(n);
       C_Polyhedron ph(n, EMPTY); ph.add_generators(gs);
       if (t.chance(50)) o.d = D(gs); else o.d = D(ph, ANY_COMPLEXITY);
-      Sys pm = ref::from_gens(g); Sys got = snapshot(o.d, n);
+      Sys pm = ref::from_gens(g); Sys got = EXACT ? snapshot(o.d, n) : big(o.d, n);
       c.check("ctor.generators.sound", ref::included(pm, got), [&] { return std::string(TR::name()) + "(generators) lost points: " + show_sys(got) + " source " + show_sys(pm); });
       if (EXACT) { ref::Union u; u.push_back(pm); Sys e = alpha(u, n, TR::kind, TR::strict);
         c.check("ctor.generators.best", ref::equal(got, e), [&] { return std::string(TR::name()) + "(generators) is not the smallest: " + show_sys(got) + " expected " + show_sys(e); }); }
     }
-    o.m = snapshot(o.d, n);
+    o.m = EXACT ? snapshot(o.d, n) : small(o.d, n);
     pool.push_back(o);
   }
+
+  // KF-C03-9: BD_Shape/Octagonal_Shape over bounded native integers mishandle overflow (wrapped or stale finite
+  // bounds instead of +infinity).  Class: an exact bound of the data involved exceeds a quarter of the range of T.
+  static bool bounded_int() { return TR::kind != 0 && TR::extreme > 0 && TR::extreme < 100; }
+  bool near_overflow(const ref::Union& S, size_t n) {
+    mpz_class lim = 1; lim <<= (unsigned) (TR::extreme - 2);
+    std::vector<Vec> ds = directions(n, 2);
+    for (size_t i = 0; i < S.size(); ++i) { if (ref::is_empty(S[i])) continue;
+      for (size_t k = 0; k < ds.size(); ++k) { Q v; bool a; if (ref::sup(S[i], ds[k], Q(0), v, a) && abs(v) > Q(lim)) return true; } }
+    return false;
+  }
+  bool kf9(const ref::Union& S, size_t n, const Sys* before = 0) {
+    if (!bounded_int() || !kf("KF-C03-9")) return false;
+    ref::Union u(S); if (before && before->n == n) u.push_back(*before);
+    if (!near_overflow(u, n)) return false;
+    c.excluded("KF-C03-9"); return true;
+  }
+
+  // KF-C03-10: floating-point boxes: constraint propagation (Box(ph, POLYNOMIAL/SIMPLEX), refine_with_constraint(s) with a
+  // non-interval constraint) rounds a coefficient that is not exactly representable in the wrong direction.
+  static bool float_box() { return TR::kind == 0 && TR::extreme >= 100; }
+  static bool unrepresentable(const RCon& rc) { mpz_class lim = 1; lim <<= 24; for (size_t j = 0; j < rc.e.a.size(); ++j) if (abs(rc.e.a[j]) >= lim) return true; return abs(rc.e.b) >= lim; }
 
   // ---- verdict after a mutator --------------------------------------------
   // S: exact result as a union; mode: 'E' exact if EXACT, 'B' best if EXACT, 'S' sound only
   void settle(Obj& o, const char* op, const ref::Union& S, char mode) {
-    D cp(o.d); Sys got = t.chance(50) ? read(cp, o.n) : to_ref(cp.minimized_constraints(), o.n);
+    D cp(o.d); Sys got = EXACT ? (t.chance(50) ? read(cp, o.n) : to_ref(cp.minimized_constraints(), o.n)) : to_ref(cp.minimized_constraints(), o.n);
     std::string id = std::string("op.") + op;
-    for (size_t i = 0; i < S.size(); ++i)
+    bool skip = !EXACT && kf9(S, o.n, &o.m);
+    for (size_t i = 0; i < S.size() && !skip; ++i)
       c.check(id + ".sound", ref::included(S[i], got), [&] { return std::string(TR::name()) + "::" + op + " cut points of the exact result: got " + show_sys(got) + " exact piece " + show_sys(S[i]); });
-    c.check(id + ".OK", cp.OK(), "OK() false after the operation");
+    if (EXACT) c.check(id + ".OK", cp.OK(), "OK() false after the operation");
     bool enlarged = false;
     if (EXACT && mode != 'S') {
       Sys e(o.n);
@@ -194,7 +229,7 @@ template <typename D> struct Prog {
       }
     }
     if (!EXACT) { for (size_t i = 0; i < S.size() && !enlarged; ++i) {} ref::Union g; g.push_back(got); try { enlarged = !ref::union_included(g, S); } catch (ref::Budget_Exceeded&) { enlarged = false; } if (enlarged) { ++nt_steps; c.tag(std::string("rounded-or-inexpressible ") + TR::name()); } }
-    o.m = got; note_state(o);
+    o.m = EXACT ? got : small(o.d, o.n); note_state(o);
   }
   void settle1(Obj& o, const char* op, const Sys& s, char mode) { ref::Union u; u.push_back(s); settle(o, op, u, mode); }
   bool interesting(const Sys& m) { return !ref::is_empty(m) && !ref::is_universe(m); }
@@ -206,6 +241,7 @@ template <typename D> struct Prog {
     return pool[cand[t.range(0, (long) cand.size() - 1)]];
   }
   void arg_unchanged(Obj& q, const Sys& before, const char* op) {
+    if (!EXACT) return;      // equality of descriptions is only meaningful for exact bounds (see small/big)
     Sys got = snapshot(q.d, q.n);
     c.check(std::string("op.") + op + ".const_arg", ref::equal(got, before), [&] { return std::string(op) + " changed its const argument: now " + show_sys(got) + " was " + show_sys(before); });
   }
@@ -258,18 +294,31 @@ template <typename D> struct Prog {
     case 2: name = "generalized_affine_image"; c.log << "  generalized_affine_image x" << k << " " << RSN(sym) << " (" << rhs.str() << ")/" << den << "\n"; o.d.generalized_affine_image(Variable(k), RS(sym), rhs.ppl(), Coefficient(den)); add_rel(tmp, n, var, sym, rhs, den, true); break;
     case 3: name = "generalized_affine_preimage"; c.log << "  generalized_affine_preimage x" << k << " " << RSN(sym) << " (" << rhs.str() << ")/" << den << "\n"; o.d.generalized_affine_preimage(Variable(k), RS(sym), rhs.ppl(), Coefficient(den)); add_rel(tmp, n, var, sym, rhs, den, true); image = false; break;
     case 4: { name = "generalized_affine_image_lhs"; LE lhs(n); gen_rhs(lhs); c.log << "  generalized_affine_image " << lhs.str() << " " << RSN(sym) << " " << rhs.str() << "\n";
-      if (TR::kind == 1 && kf("KF-C03-2")) { c.excluded("KF-C03-2"); return; }
       o.d.generalized_affine_image(lhs.ppl(), RS(sym), rhs.ppl()); add_rel(tmp, n, lhs, sym, rhs, 1, true); expr_ok = false; break; }
     case 5: { name = "generalized_affine_preimage_lhs"; LE lhs(n); gen_rhs(lhs); c.log << "  generalized_affine_preimage " << lhs.str() << " " << RSN(sym) << " " << rhs.str() << "\n"; o.d.generalized_affine_preimage(lhs.ppl(), RS(sym), rhs.ppl()); add_rel(tmp, n, lhs, sym, rhs, 1, true); image = false; expr_ok = false; break; }
     case 6: name = "bounded_affine_image"; c.log << "  bounded_affine_image (" << rhs.str() << ")/" << den << " <= x" << k << " <= (" << rhs2.str() << ")/" << den << "\n";
       o.d.bounded_affine_image(Variable(k), rhs.ppl(), rhs2.ppl(), Coefficient(den)); add_rel(tmp, n, var, 3, rhs, den, true); { Sys t2(2 * n); add_rel(t2, n, var, 1, rhs2, den, false); tmp.cs.push_back(t2.cs[0]); } expr_ok = false; break;
     default: name = "bounded_affine_preimage"; c.log << "  bounded_affine_preimage (" << rhs.str() << ")/" << den << " <= x" << k << " <= (" << rhs2.str() << ")/" << den << "\n";
+      // KF-C03-1: Box::bounded_affine_preimage divides by the coefficient of var in a bound expression: SIGFPE when it is zero
+      if (TR::kind == 0 && (rhs.a[k] == 0 || rhs2.a[k] == 0) && kf("KF-C03-1")) { c.excluded("KF-C03-1"); c.log << "   (not executed: KF-C03-1)\n"; return; }
       o.d.bounded_affine_preimage(Variable(k), rhs.ppl(), rhs2.ppl(), Coefficient(den)); add_rel(tmp, n, var, 3, rhs, den, true); { Sys t2(2 * n); add_rel(t2, n, var, 1, rhs2, den, false); tmp.cs.push_back(t2.cs[0]); } image = false; expr_ok = false; break;
     }
     c.tag(std::string("op ") + name + (expr_ok ? " expressible" : " general"));
+    // KF-C03-2: Box::generalized_affine_preimage(lhs, relsym, rhs) is computed as an image of a sign-swapped relation: unsound
+    if (TR::kind == 0 && op == 5 && kf("KF-C03-2")) { c.excluded("KF-C03-2"); o.m = EXACT ? snapshot(o.d, n) : small(o.d, n); note_state(o); return; }
+    // KF-C03-7: Box::generalized_affine_image(lhs, relsym, rhs) cuts points of the exact image
+    if (TR::kind == 0 && op == 4 && kf("KF-C03-7")) { c.excluded("KF-C03-7"); o.m = EXACT ? snapshot(o.d, n) : small(o.d, n); note_state(o); return; }
+    // KF-C03-4: Box::bounded_affine_image cuts points of the exact image
+    if (TR::kind == 0 && op == 6 && kf("KF-C03-4")) { c.excluded("KF-C03-4"); o.m = EXACT ? snapshot(o.d, n) : small(o.d, n); note_state(o); return; }
+    // KF-C03-5: Box::generalized_affine_preimage(var, relsym, expr, d) with var not occurring in expr cuts points of the exact preimage
+    if (TR::kind == 0 && op == 3 && rhs.a[k] == 0 && sym != 2 && kf("KF-C03-5")) { c.excluded("KF-C03-5"); o.m = EXACT ? snapshot(o.d, n) : small(o.d, n); note_state(o); return; }
     Sys e = rel_apply(o.m, n, tmp.cs, image);
     // exactness only claimed for plain affine image/preimage with an expressible relation
-    settle1(o, name, e, (expr_ok && op <= 1) ? 'E' : 'S');
+    char mode = (expr_ok && op <= 1) ? 'E' : 'S';
+    // KF-C04-1: the shapes' affine_preimage forgets `var' without first imposing var == expr when
+    // var does not occur in expr (non-invertible): sound but not exact although expressible
+    if (mode == 'E' && op == 1 && rhs.a[k] == 0 && EXACT && kf("KF-C04-1")) { c.excluded("KF-C04-1"); mode = 'S'; }
+    settle1(o, name, e, mode);
   }
 
   void mutate(Obj& o) {
@@ -281,12 +330,14 @@ template <typename D> struct Prog {
       settle1(o, "add_constraint", e, 'E'); break; }
     case 1: { // refine_with_constraint(s): arbitrary constraints, sandwich
       int m = (int) t.range(1, 2); Constraint_System cs; cs.set_space_dimension(n); Sys lo = o.m, before = o.m; c.log << "  refine_with_constraints {";
-      bool shaped = true;
-      for (int i = 0; i < m; ++i) { bool general = t.chance(50); RCon rc = general ? gen_con(t, n, wit, true, t.chance(15)) : gen_shape_con(n); if (general) shaped = false; c.log << (i ? ", " : "") << str(rc); cs.insert(to_ppl(rc)); lo.add(to_refcon(rc)); }
+      bool shaped = true, unrep = false;
+      Constraint first = Constraint::zero_dim_positivity();
+      for (int i = 0; i < m; ++i) { bool general = t.chance(50); RCon rc = general ? gen_con(t, n, wit, true, t.chance(15)) : gen_shape_con(n); if (general) shaped = false; if (general && unrepresentable(rc)) unrep = true; c.log << (i ? ", " : "") << str(rc); cs.insert(to_ppl(rc)); if (i == 0) first = to_ppl(rc); lo.add(to_refcon(rc)); }
       c.log << "}\n";
-      if (m == 1 && t.chance(50)) o.d.refine_with_constraint(*cs.begin()); else o.d.refine_with_constraints(cs);
+      if (m == 1 && t.chance(50)) o.d.refine_with_constraint(first); else o.d.refine_with_constraints(cs);
+      if (float_box() && unrep && kf("KF-C03-10")) { c.excluded("KF-C03-10"); o.m = small(o.d, n); note_state(o); break; }
       settle1(o, "refine_with_constraints", lo, 'S');
-      c.check("op.refine_with_constraints.upper", ref::included(o.m, before), [&] { return "refine_with_constraints enlarged the receiver: " + show_sys(o.m) + " was " + show_sys(before); });
+      if (EXACT) c.check("op.refine_with_constraints.upper", ref::included(o.m, before), [&] { return "refine_with_constraints enlarged the receiver: " + show_sys(o.m) + " was " + show_sys(before); });
       (void) shaped; break; }
     case 2: { Obj& q = partner(o); c.log << "  intersection_assign obj" << (&q - &pool[0]) << "\n"; Sys e = ref::meet(o.m, q.m), qm = q.m; o.d.intersection_assign(q.d); settle1(o, "intersection_assign", e, 'E'); arg_unchanged(q, qm, "intersection_assign"); break; }
     case 3: { Obj& q = partner(o); c.log << "  upper_bound_assign obj" << (&q - &pool[0]) << "\n"; ref::Union S; S.push_back(o.m); S.push_back(q.m); Sys qm = q.m; o.d.upper_bound_assign(q.d); settle(o, "upper_bound_assign", S, 'B'); arg_unchanged(q, qm, "upper_bound_assign"); break; }
@@ -340,17 +391,22 @@ template <typename D> struct Prog {
       bool r = try_ub_if_exact(o.d, q.d);
       ref::Union u; u.push_back(pm); u.push_back(qm);
       if (EXACT) { Sys a = alpha(u, n, TR::kind, TR::strict); bool exact = ref::covered(a, u);
-        c.check("op.upper_bound_assign_if_exact.verdict", r == exact, [&] { return std::string(TR::name()) + "::upper_bound_assign_if_exact returned " + (r ? "true" : "false") + " but the union " + (exact ? "is" : "is not") + " an element of the domain: P=" + show_sys(pm) + " Q=" + show_sys(qm); }); }
+        // KF-C04-2: Box::upper_bound_assign_if_exact misses exact unions (false negatives)
+        if (TR::kind == 0 && !r && exact && kf("KF-C04-2")) c.excluded("KF-C04-2");
+        else c.check("op.upper_bound_assign_if_exact.verdict", r == exact, [&] { return std::string(TR::name()) + "::upper_bound_assign_if_exact returned " + (r ? "true" : "false") + " but the union " + (exact ? "is" : "is not") + " an element of the domain: P=" + show_sys(pm) + " Q=" + show_sys(qm); }); }
       if (r) settle(o, "upper_bound_assign_if_exact", u, 'B'); else settle1(o, "upper_bound_assign_if_exact.unchanged", pm, 'E');
       break; }
     default: { // simplify_using_context_assign
-      Obj& q = partner(o); c.log << "  simplify_using_context_assign obj" << (&q - &pool[0]) << "\n"; Sys pm = o.m, qm = q.m; bool r = o.d.simplify_using_context_assign(q.d);
-      Sys got = snapshot(o.d, n); bool meet_empty = ref::is_empty(ref::meet(pm, qm));
+      Obj& q = partner(o); c.log << "  simplify_using_context_assign obj" << (&q - &pool[0]) << "\n"; Sys pm = o.m, qm = q.m;
+      // KF-C03-3: Octagonal_Shape::simplify_using_context_assign can run into PPL_UNREACHABLE (abort)
+      if (TR::kind == 2 && kf("KF-C03-3")) { c.excluded("KF-C03-3"); c.log << "   (not executed: KF-C03-3)\n"; break; }
+      bool r = o.d.simplify_using_context_assign(q.d);
+      Sys got = EXACT ? snapshot(o.d, n) : big(o.d, n); bool meet_empty = ref::is_empty(ref::meet(pm, qm));
       if (EXACT) c.check("op.simplify_using_context.verdict", r == !meet_empty, [&] { return std::string("returned ") + (r ? "true" : "false") + " but P /\\ Q is " + (meet_empty ? "empty" : "non-empty") + " P=" + show_sys(pm) + " Q=" + show_sys(qm); });
       else if (!r) c.check("op.simplify_using_context.verdict_false", meet_empty, [&] { return "returned false but P /\\ Q is non-empty: P=" + show_sys(pm) + " Q=" + show_sys(qm); });
       if (r) { c.check("op.simplify_using_context.meet_lower", ref::included(ref::meet(pm, qm), ref::meet(got, qm)), [&] { return "result /\\ Q lost points of P /\\ Q: " + show_sys(got); });
-        if (EXACT) c.check("op.simplify_using_context.meet_upper", ref::included(ref::meet(got, qm), ref::meet(pm, qm)), [&] { return "result /\\ Q is larger than P /\\ Q: result " + show_sys(got) + " P=" + show_sys(pm) + " Q=" + show_sys(qm); }); }
-      o.m = got; note_state(o); break; }
+        /* meet-preservation from above is not stated by C03/C04 for the shapes: not checked */ }
+      o.m = EXACT ? got : small(o.d, n); note_state(o); break; }
     }
     if (was && EXACT) ++nt_steps;
   }
@@ -377,7 +433,6 @@ template <typename D> struct Prog {
       else if (w == 2) { nm = "is_disjoint_from"; r = d.is_disjoint_from(y.d); e = ref::disjoint(m, y.m); }
       else { nm = "=="; r = (d == y.d); e = ref::equal(m, y.m); }
       c.log << "  ? " << nm << " obj" << (&y - &pool[0]) << " -> " << r << "\n";
-      if (w == 2 && kf("KF-C04-1") && TR::kind >= 1 && !r && e) { c.excluded("KF-C04-1"); break; }
       ck2((std::string("q.") + nm).c_str(), r, e, [&] { return std::string(nm) + " answered " + (r ? "true" : "false") + " for argument " + show_sys(y.m); }); break; }
     case 8: case 9: { RCon rc = t.chance(50) ? gen_shape_con(n) : gen_con(t, n, wit, true, t.chance(50));
       Constraint pc = to_ppl(rc); Poly_Con_Relation r = Poly_Con_Relation::nothing();
@@ -411,18 +466,26 @@ template <typename D> struct Prog {
         if (r && fin) { Q got = mkq(mpz_class(num), mpz_class(dn)); c.check("q.optimize.value", got == v, [&] { return std::string(maxi ? "maximize(" : "minimize(") + e.str() + ") = " + got.get_str() + ", exact " + v.get_str() + " [model " + show_sys(m) + "]"; });
           c.check("q.optimize.attained", mx == att, [&] { return "attained flag wrong for " + e.str() + " [model " + show_sys(m) + "]"; });
           if (withg) { Vec gv = gen_vec(g, n); Q ev = Q(e.b); for (size_t j = 0; j < n; ++j) ev += Q(e.a[j]) * gv[j]; c.check("q.optimize.witness", ev == v && ref::closure(m).sat(gv) && (!att || m.sat(gv)), [&] { std::ostringstream s; s << "witness " << g << " invalid [model " << show_sys(m) << "]"; return s.str(); }); } } }
+      else if (r && !emp && bounded_int() && kf("KF-C03-9") && fin && abs(v) > Q(mpz_class(1) << (unsigned) (TR::extreme - 2))) c.excluded("KF-C03-9");
       else if (r && !emp) { // a reported bound must be a sound bound
         Q got = mkq(mpz_class(num), mpz_class(dn)); c.check("q.optimize.sound", fin && (maxi ? got >= v : got <= v), [&] { return std::string(maxi ? "maximize(" : "minimize(") + e.str() + ") = " + got.get_str() + " is not a bound of the set [model " + show_sys(m) + "]"; }); }
       break; }
     default: { Sys a = to_ref(d.minimized_constraints(), n), b = read(d, n); c.log << "  ? minimized_constraints\n";
-      c.check("q.minimized_constraints", ref::equal(a, b) && ref::equal(a, m), [&] { return "minimized_constraints() " + show_sys(a) + " and constraints() " + show_sys(b) + " differ, or an observer changed the value [model " + show_sys(m) + "]"; }); break; }
+      if (!EXACT) c.check("q.minimized_constraints.sound", ref::included(m, a) && ref::included(m, b), [&] { return "a description of the object cuts points of its tightest description: minimized " + show_sys(a) + " full " + show_sys(b) + " [model " + show_sys(m) + "]"; });
+      else c.check("q.minimized_constraints", ref::equal(a, b) && ref::equal(a, m), [&] { return "minimized_constraints() " + show_sys(a) + " and constraints() " + show_sys(b) + " differ, or an observer changed the value [model " + show_sys(m) + "]"; }); break; }
     }
     // observers never change the value
-    if (t.chance(30)) { Sys now = snapshot(d, n); c.check("q.observer_changed_value", ref::equal(now, m), [&] { return "value changed by an observer: now " + show_sys(now) + " was " + show_sys(m); }); }
+    if (EXACT && t.chance(30)) { Sys now = snapshot(d, n); c.check("q.observer_changed_value", ref::equal(now, m), [&] { return "value changed by an observer: now " + show_sys(now) + " was " + show_sys(m); }); }
     note_state(o);
   }
 
   void run() {
+    // KF-C03-9 (overflow in bounded-integer shapes) also leaves Not-a-Number entries behind: reading such an object
+    // throws std::domain_error.  Under the known finding the case ends there.
+    try { run_body(); }
+    catch (std::domain_error&) { if (bounded_int() && kf("KF-C03-9")) { c.excluded("KF-C03-9"); return; } throw; }
+  }
+  void run_body() {
     size_t n = (size_t) t.weighted({4, 26, 45, 25});
     wit.resize(8); for (size_t j = 0; j < 8; ++j) wit[j] = t.range(-2, 2);
     c.log << "program " << TR::name() << " dim " << n << (EXACT ? " (exact)" : " (soundness)") << "\n";
@@ -437,8 +500,9 @@ template <typename D> struct Prog {
     }
     // final: every object still denotes its model; equal sets compare equal whatever their history
     for (size_t i = 0; i < pool.size(); ++i) { Obj& o = pool[i]; Sys now = snapshot(o.d, o.n);
-      c.check("final.value", ref::equal(now, o.m), [&] { return "object no longer denotes its model: " + show_sys(now) + " vs " + show_sys(o.m); });
-      c.check("final.OK", o.d.OK(), "OK() false at the end");
+      if (!EXACT) c.check("final.value.sound", ref::included(o.m, big(o.d, o.n)), [&] { return "object lost points of its model: " + show_sys(now) + " vs " + show_sys(o.m); });
+      else c.check("final.value", ref::equal(now, o.m), [&] { return "object no longer denotes its model: " + show_sys(now) + " vs " + show_sys(o.m); });
+      if (EXACT) c.check("final.OK", o.d.OK(), "OK() false at the end");
       if (EXACT) { D alt(o.n, UNIVERSE); Constraint_System cs = o.d.minimized_constraints(); alt.refine_with_constraints(cs);
         c.check("final.equal_sets_compare_equal", alt == o.d && alt.contains(o.d) && o.d.contains(alt), [&] { return "object differs from an equal set rebuilt from its minimized constraints " + show_sys(o.m); }); } }
     if (EXACT) { bool odd = false; for (size_t i = 0; i < pool.size(); ++i) if (pool[i].states.size() >= 2) odd = true; if (nt_steps >= 1 && odd) c.nt(); }
@@ -454,10 +518,15 @@ void vf_case(Ctx& c) {
 #elif defined(VF_G2)
   switch (c.t.range(0, 4)) { case 0: { Prog<Octagonal_Shape<mpq_class> > p(c); p.run(); break; } case 1: { Prog<Octagonal_Shape<int8_t> > p(c); p.run(); break; } case 2: { Prog<Octagonal_Shape<double> > p(c); p.run(); break; } case 3: { Prog<Octagonal_Shape<mpz_class> > p(c); p.run(); break; } default: { Prog<Octagonal_Shape<float> > p(c); p.run(); } }
 #elif defined(VF_G3)
-  switch (c.t.range(0, 5)) { case 0: { Prog<Rational_Box> p(c); p.run(); break; } case 1: { Prog<Z_Box> p(c); p.run(); break; } case 2: { Prog<Int8_Box> p(c); p.run(); break; } case 3: { Prog<Double_Box> p(c); p.run(); break; } case 4: { Prog<Uint8_Box> p(c); p.run(); break; } default: { Prog<Float_Box> p(c); p.run(); } }
+  // KF-C03-8: boxes over integer boundary types round fractional / strict bounds inwards (integer-point semantics):
+  // real points of the exact result are cut.  Under the known finding only the other box instances are run.
+  long w = c.t.range(0, 5);
+  if (kf("KF-C03-8") && (w == 1 || w == 2 || w == 4)) { c.excluded("KF-C03-8"); w = w == 1 ? 0 : w == 2 ? 3 : 5; }
+  switch (w) { case 0: { Prog<Rational_Box> p(c); p.run(); break; } case 1: { Prog<Z_Box> p(c); p.run(); break; } case 2: { Prog<Int8_Box> p(c); p.run(); break; } case 3: { Prog<Double_Box> p(c); p.run(); break; } case 4: { Prog<Uint8_Box> p(c); p.run(); break; } default: { Prog<Float_Box> p(c); p.run(); } }
 #elif defined(VF_G4)
   switch (c.t.range(0, 7)) { case 0: { Prog<BD_Shape<int16_t> > p(c); p.run(); break; } case 1: { Prog<BD_Shape<int64_t> > p(c); p.run(); break; } case 2: { Prog<BD_Shape<float> > p(c); p.run(); break; } case 3: { Prog<Octagonal_Shape<int16_t> > p(c); p.run(); break; }
-    case 4: { Prog<Octagonal_Shape<int64_t> > p(c); p.run(); break; } case 5: { Prog<Octagonal_Shape<long double> > p(c); p.run(); break; } case 6: { Prog<Int32_Box> p(c); p.run(); break; } default: { Prog<Long_Double_Box> p(c); p.run(); } }
+    case 4: { Prog<Octagonal_Shape<int64_t> > p(c); p.run(); break; } case 5: { Prog<Octagonal_Shape<long double> > p(c); p.run(); break; }
+    case 6: { if (kf("KF-C03-8")) { c.excluded("KF-C03-8"); Prog<Long_Double_Box> p(c); p.run(); } else { Prog<Int32_Box> p(c); p.run(); } break; } default: { Prog<Long_Double_Box> p(c); p.run(); } }
 #endif
 }
 VF_MAIN
